@@ -49,6 +49,12 @@ LOCK2_RE = re.compile(r"^(\s*)([A-Za-z_][\w\.]*)\.(Lock|RLock)\(\)\s*$")
 UNLOCK_RE = re.compile(r"^(\s*)(defer\s+)?([A-Za-z_][\w\.]*)\.(Unlock|RUnlock)\(\)\s*$")
 
 
+def _lockref(expr):
+    """identity of the lock behind `expr.Lock()`: the address of a mutex field (`&p.mu`), or the pointer variable itself
+    when the mutex is embedded in the struct it points to (`me.Lock()` -> `me`)"""
+    return "&" + expr if "." in expr else expr
+
+
 def rewrite_source(src, virtual_time=True, gates=False, fname=""):
     """Line-preserving rewrite of a Go source file: time.Now -> verifNow, and optionally
     `verifLock(site, &x, kind); x.Lock()` in front of every `x.Lock()` / `x.RLock()` statement (a scheduling gate that also
@@ -71,13 +77,13 @@ def rewrite_source(src, virtual_time=True, gates=False, fname=""):
             if mm:
                 n += 1
                 kind = "W" if mm.group(3) == "Lock" else "R"
-                line = '%sverifLock("%s#%d", &%s, "%s"); %s.%s()' % (mm.group(1), func, n, mm.group(2), kind, mm.group(2), mm.group(3))
+                line = '%sverifLock("%s#%d", %s, "%s"); %s.%s()' % (mm.group(1), func, n, _lockref(mm.group(2)), kind, mm.group(2), mm.group(3))
             elif mu:
                 kind = "W" if mu.group(4) == "Unlock" else "R"
                 if mu.group(2):
-                    line = '%sdefer func() { verifUnlock(&%s, "%s"); %s.%s() }()' % (mu.group(1), mu.group(3), kind, mu.group(3), mu.group(4))
+                    line = '%sdefer func() { verifUnlock(%s, "%s"); %s.%s() }()' % (mu.group(1), _lockref(mu.group(3)), kind, mu.group(3), mu.group(4))
                 else:
-                    line = '%sverifUnlock(&%s, "%s"); %s.%s()' % (mu.group(1), mu.group(3), kind, mu.group(3), mu.group(4))
+                    line = '%sverifUnlock(%s, "%s"); %s.%s()' % (mu.group(1), _lockref(mu.group(3)), kind, mu.group(3), mu.group(4))
             elif mw:
                 n += 1
                 line = '%sverifYield("%s#%d"); %s' % (mw.group(1), func, n, mw.group(2))
@@ -89,7 +95,7 @@ def rewrite_source(src, virtual_time=True, gates=False, fname=""):
 
 
 def make_overlay(scratch, pkg_rel, harness_dir, rewrite=(), gates=False, mask_tests=True, extra_files=None,
-                 name="ov"):
+                 name="ov", virtual_time=True):
     """pkg_rel: package directory relative to REPO (e.g. grpcgcp). harness_dir: directory under
     /verif/harness whose files are injected. rewrite: source files of the package to virtualise."""
     pkg = os.path.join(REPO, pkg_rel)
@@ -105,7 +111,7 @@ def make_overlay(scratch, pkg_rel, harness_dir, rewrite=(), gates=False, mask_te
         p = os.path.join(pkg, f)
         if not os.path.exists(p):
             raise Infra("source file to rewrite is missing: " + p)
-        text = rewrite_source(open(p).read(), True, gates, f)
+        text = rewrite_source(open(p).read(), virtual_time, gates, f)
         q = os.path.join(odir, f)
         open(q, "w").write(text)
         repl[p] = q
